@@ -16,6 +16,9 @@ pub const BAL: u128 = 1u128 << 60;
 pub enum Kind {
     Bank { amount: Uint128 },
     Contract { fail: bool, children: Vec<Node> },
+    /// a WasmMsg::Instantiate of the scripted contract whose instantiate entry point writes a
+    /// marker and then fails or not
+    Instantiate { fail: bool },
 }
 
 #[derive(Clone, Debug)]
@@ -32,6 +35,9 @@ pub struct Node {
     /// number of attributes / custom events the node's contract emits — C04
     pub attrs: usize,
     pub events: usize,
+    /// sub-messages emitted by the reply handler for this node's sub-message (dispatched by the same
+    /// contract that dispatched this node)
+    pub reply_children: Vec<Node>,
 }
 
 pub struct Opts {
@@ -43,6 +49,16 @@ pub struct Opts {
     pub vary_output: bool,
     /// ids from {0,1,u64::MAX} (rotating per node, or all equal) instead of unique small ids (C03)
     pub vary_ids: bool,
+    /// reply handlers may emit one sub-message of their own
+    pub reply_subs: bool,
+    /// leaves may be WasmMsg::Instantiate (failing or not) besides bank transfers
+    pub inst_leaves: bool,
+}
+
+impl Opts {
+    pub fn plain(max_depth: usize, max_nodes: usize, max_children: usize) -> Opts {
+        Opts { max_depth, max_nodes, max_children, vary_output: false, vary_ids: false, reply_subs: false, inst_leaves: false }
+    }
 }
 
 pub struct World {
@@ -103,7 +119,20 @@ impl<'a> Gen<'a> {
         };
         self.next_id += 1;
         let can_be_contract = depth < self.o.max_depth;
-        let is_contract = is_root || (can_be_contract && choose(2) == 1);
+        // 0 = bank leaf, 1 = contract, 2 = instantiate leaf
+        let what = if is_root {
+            1
+        } else {
+            let mut opts_ = vec![0usize];
+            if can_be_contract {
+                opts_.push(1);
+            }
+            if self.o.inst_leaves {
+                opts_.push(2);
+            }
+            if opts_.len() == 1 { 0 } else { opts_[choose(opts_.len())] }
+        };
+        let is_contract = what == 1;
         let mode = if is_root { ReplyOn::Never } else { MODES[choose(4)].clone() };
         let reply_fail = if is_root || mode == ReplyOn::Never { false } else { choose(2) == 1 };
         let (mut data, mut reply_data, mut attrs, mut events) = (None, None, 0, 0);
@@ -133,10 +162,16 @@ impl<'a> Gen<'a> {
                 }
             }
             Kind::Contract { fail, children }
+        } else if what == 2 {
+            Kind::Instantiate { fail: choose(2) == 1 }
         } else {
             Kind::Bank { amount: sym_u128(&format!("amt{}", self.nodes), 0, BAL) }
         };
-        Node { id, depth, kind, mode, reply_fail, data, reply_data, attrs, events }
+        let mut reply_children = vec![];
+        if self.o.reply_subs && !is_root && mode != ReplyOn::Never && !reply_fail && self.nodes < self.o.max_nodes && choose(2) == 1 {
+            reply_children.push(self.node(depth, false));
+        }
+        Node { id, depth, kind, mode, reply_fail, data, reply_data, attrs, events, reply_children }
     }
 }
 
@@ -160,19 +195,44 @@ pub fn assign_uids_pub(n: &Node, next: &mut usize, out: &mut BTreeMap<*const Nod
             assign_uids_pub(c, next, out);
         }
     }
+    for c in &n.reply_children {
+        assign_uids_pub(c, next, out);
+    }
 }
 
 pub struct Built {
     pub script: Script,
 }
 
-fn reply_script(n: &Node, uid: usize) -> Script {
+fn reply_script(w: &World, n: &Node, uids: &BTreeMap<*const Node, usize>) -> Script {
+    let uid = uids[&(n as *const Node)];
     let mut s = Script::new().write(&format!("r{}_{}", n.depth, uid), "1");
     if let Some(d) = &n.reply_data {
         s = s.then(Step::Data { data: Some(Binary::from(d.clone())) });
     }
     if n.reply_fail {
         s = s.fail("reply fails");
+    }
+    add_subs(w, s, &n.reply_children, uids)
+}
+
+fn add_subs(w: &World, mut s: Script, subs: &[Node], uids: &BTreeMap<*const Node, usize>) -> Script {
+    for c in subs {
+        let cuid = uids[&(c as *const Node)];
+        let msg: CosmosMsg = match &c.kind {
+            Kind::Bank { amount } => BankMsg::Send { to_address: w.sink.to_string(), amount: vec![coin(*amount, "x")] }.into(),
+            Kind::Contract { .. } => {
+                WasmMsg::Execute { contract_addr: w.ks[c.depth].to_string(), msg: build_script(w, c, uids).bin(), funds: vec![] }.into()
+            }
+            Kind::Instantiate { fail } => {
+                let mut is = Script::new().write(&format!("inst_{}", cuid), "1");
+                if *fail {
+                    is = is.fail("instantiate fails after writing");
+                }
+                WasmMsg::Instantiate { admin: None, code_id: 1, msg: is.bin(), funds: vec![], label: format!("i{}", cuid) }.into()
+            }
+        };
+        s = s.sub(msg, c.mode.clone(), c.id, Some(reply_script(w, c, uids)));
     }
     s
 }
@@ -194,24 +254,9 @@ pub fn build_script(w: &World, n: &Node, uids: &BTreeMap<*const Node, usize>) ->
             if *fail {
                 return s.fail("contract fails after writing");
             }
-            for c in children {
-                let cuid = uids[&(c as *const Node)];
-                let msg: CosmosMsg = match &c.kind {
-                    Kind::Bank { amount } => {
-                        BankMsg::Send { to_address: w.sink.to_string(), amount: vec![coin(*amount, "x")] }.into()
-                    }
-                    Kind::Contract { .. } => WasmMsg::Execute {
-                        contract_addr: w.ks[c.depth].to_string(),
-                        msg: build_script(w, c, uids).bin(),
-                        funds: vec![],
-                    }
-                    .into(),
-                };
-                s = s.sub(msg, c.mode.clone(), c.id, Some(reply_script(c, cuid)));
-            }
-            s
+            add_subs(w, s, children, uids)
         }
-        Kind::Bank { .. } => unreachable!("bank leaves are messages, not scripts"),
+        _ => unreachable!("leaves are messages, not scripts"),
     }
 }
 
@@ -222,6 +267,14 @@ pub fn build_script(w: &World, n: &Node, uids: &BTreeMap<*const Node, usize>) ->
 pub struct RefState {
     pub markers: BTreeSet<(usize, String)>,
     pub bal: Vec<V>,
+    /// uids of the instantiate leaves whose contract exists
+    pub instances: BTreeSet<usize>,
+}
+
+impl RefState {
+    pub fn new(bal: Vec<V>) -> RefState {
+        RefState { markers: BTreeSet::new(), bal, instances: BTreeSet::new() }
+    }
 }
 
 #[derive(Clone, Debug, PartialEq)]
@@ -295,10 +348,16 @@ pub struct Out {
 pub struct Interp<'a> {
     pub uids: &'a BTreeMap<*const Node, usize>,
     pub calls: Vec<Call>,
-    pub ks: Vec<String>,
+    pub w: &'a World,
 }
 
+pub const INST_DATA: &[u8] = b"INST";
+
 impl<'a> Interp<'a> {
+    pub fn new(w: &'a World, uids: &'a BTreeMap<*const Node, usize>) -> Self {
+        Interp { uids, calls: vec![], w }
+    }
+
     /// runs `n` (as a message dispatched by contract at depth n.depth-1, or the root) on a copy of
     /// `st`; Ok carries the new state and the node's output
     pub fn run(&mut self, n: &Node, st: &RefState) -> Result<(RefState, Out), ()> {
@@ -316,6 +375,15 @@ impl<'a> Interp<'a> {
                 s2.bal[sink] = add(s2.bal[sink], v(*amount));
                 Ok((s2, Out { events: vec!["transfer".into()], data: None }))
             }
+            Kind::Instantiate { fail } => {
+                self.calls.push(Call { entry: "instantiate", contract: 99, uid, sub_ok: None, reply: None });
+                if *fail {
+                    return Err(());
+                }
+                let mut s2 = st.clone();
+                s2.instances.insert(uid);
+                Ok((s2, Out { events: vec!["instantiate@?".into()], data: Some(INST_DATA.to_vec()) }))
+            }
             Kind::Contract { fail, children } => {
                 self.calls.push(Call { entry: "execute", contract: n.depth, uid, sub_ok: None, reply: None });
                 if *fail {
@@ -332,66 +400,74 @@ impl<'a> Interp<'a> {
                     out.events.push(format!("wasm-ev{}@{}[k=n{}]", i, n.depth, uid));
                 }
                 out.data = n.data.clone();
-                for c in children {
-                    let cuid = self.uids[&(c as *const Node)];
-                    let r = self.run(c, &s2);
-                    let sub_ok = r.is_ok();
-                    let due = match c.mode {
-                        ReplyOn::Always => true,
-                        ReplyOn::Success => sub_ok,
-                        ReplyOn::Error => !sub_ok,
-                        ReplyOn::Never => false,
-                    };
-                    let child_out = match r {
-                        Ok((s3, o)) => {
-                            s2 = s3;
-                            Some(o)
-                        }
-                        Err(()) => None,
-                    };
-                    if due {
-                        let result = child_out.as_ref().map(|o| {
-                            let (data, url) = match &c.kind {
-                                Kind::Bank { .. } => (None, "/cosmos.bank.v1beta1.MsgSendResponse"),
-                                Kind::Contract { .. } => {
-                                    (o.data.as_ref().map(|d| encode_exec(d)), "/cosmwasm.wasm.v1.MsgExecuteContractResponse")
-                                }
-                            };
-                            (o.events.clone(), data, url.to_string())
-                        });
-                        self.calls.push(Call {
-                            entry: "reply",
-                            contract: n.depth,
-                            uid: cuid,
-                            sub_ok: Some(sub_ok),
-                            reply: Some(ReplyExp {
-                                id: c.id,
-                                payload: cosmwasm_std::to_json_vec(&reply_script(c, cuid)).unwrap(),
-                                result,
-                            }),
-                        });
-                        if c.reply_fail {
-                            return Err(());
-                        }
-                        s2.markers.insert((n.depth, format!("r{}_{}", c.depth, cuid)));
-                        if let Some(o) = child_out {
-                            out.events.extend(o.events);
-                        }
-                        out.events.push(format!("reply@{}:{}", n.depth, if sub_ok { "handle_success" } else { "handle_failure" }));
-                        // data: the last reply that set data wins, otherwise the contract's own
-                        if let Some(d) = &c.reply_data {
-                            out.data = Some(d.clone());
-                        }
-                    } else if !sub_ok {
-                        return Err(());
-                    } else if let Some(o) = child_out {
-                        // successful sub-message without reply: its events count, its data does not
-                        out.events.extend(o.events);
-                    }
-                }
+                self.dispatch(n.depth, children, &mut s2, &mut out)?;
                 Ok((s2, out))
             }
         }
+    }
+
+    /// the sub-messages `subs` of one response of contract `at`, in listed order, each followed by
+    /// its reply (whose own sub-messages are dispatched the same way before the next sibling)
+    fn dispatch(&mut self, at: usize, subs: &[Node], s2: &mut RefState, out: &mut Out) -> Result<(), ()> {
+        for c in subs {
+            let cuid = self.uids[&(c as *const Node)];
+            let r = self.run(c, s2);
+            let sub_ok = r.is_ok();
+            let due = match c.mode {
+                ReplyOn::Always => true,
+                ReplyOn::Success => sub_ok,
+                ReplyOn::Error => !sub_ok,
+                ReplyOn::Never => false,
+            };
+            let child_out = match r {
+                Ok((s3, o)) => {
+                    *s2 = s3;
+                    Some(o)
+                }
+                Err(()) => None,
+            };
+            if due {
+                let result = child_out.as_ref().map(|o| {
+                    let (data, url) = match &c.kind {
+                        Kind::Bank { .. } => (None, "/cosmos.bank.v1beta1.MsgSendResponse"),
+                        Kind::Contract { .. } => (o.data.as_ref().map(|d| encode_exec(d)), "/cosmwasm.wasm.v1.MsgExecuteContractResponse"),
+                        Kind::Instantiate { .. } => (Some(INST_DATA.to_vec()), "/cosmwasm.wasm.v1.MsgInstantiateContractResponse"),
+                    };
+                    (o.events.clone(), data, url.to_string())
+                });
+                self.calls.push(Call {
+                    entry: "reply",
+                    contract: at,
+                    uid: cuid,
+                    sub_ok: Some(sub_ok),
+                    reply: Some(ReplyExp {
+                        id: c.id,
+                        payload: cosmwasm_std::to_json_vec(&reply_script(self.w, c, self.uids)).unwrap(),
+                        result,
+                    }),
+                });
+                if c.reply_fail {
+                    return Err(());
+                }
+                s2.markers.insert((at, format!("r{}_{}", c.depth, cuid)));
+                if let Some(o) = child_out {
+                    out.events.extend(o.events);
+                }
+                out.events.push(format!("reply@{}:{}", at, if sub_ok { "handle_success" } else { "handle_failure" }));
+                // data: the last reply that set data wins, otherwise the contract's own
+                if let Some(d) = &c.reply_data {
+                    out.data = Some(d.clone());
+                }
+                // the reply handler's own sub-messages (their replies may override the data again)
+                self.dispatch(at, &c.reply_children, s2, out)?;
+            } else if !sub_ok {
+                return Err(());
+            } else if let Some(o) = child_out {
+                // successful sub-message without reply: its events count, its data does not
+                out.events.extend(o.events);
+            }
+        }
+        Ok(())
     }
 }
 
@@ -423,7 +499,7 @@ pub fn observed_calls(w: &World, trace: &[Ev], uid_of_marker: &dyn Fn(&Ev) -> Op
     trace
         .iter()
         .map(|e| Call {
-            entry: if e.entry == "reply" { "reply" } else { "execute" },
+            entry: if e.entry == "reply" { "reply" } else if e.entry == "instantiate" { "instantiate" } else { "execute" },
             contract: w.ks.iter().position(|k_| *k_ == e.contract).unwrap_or(99),
             uid: uid_of_marker(e).unwrap_or(9999),
             sub_ok: e.reply.as_ref().map(|r| matches!(r.result, SubMsgResult::Ok(_))),
@@ -441,6 +517,12 @@ pub fn observed_calls(w: &World, trace: &[Ev], uid_of_marker: &dyn Fn(&Ev) -> Op
                             .unwrap_or_default();
                         // msg_responses must mirror data (one entry, value = data or empty)
                         let mirror_ok = resp.msg_responses.len() == 1 && value == data.clone().unwrap_or_default();
+                        // the address inside an instantiate response is not predicted by the reference
+                        let data = if url.ends_with("MsgInstantiateContractResponse") && value.starts_with(&[0x0a]) {
+                            Some(INST_DATA.to_vec())
+                        } else {
+                            data
+                        };
                         Some((
                             resp.events.iter().map(|ev| event_sig(w, ev)).collect(),
                             data,
@@ -462,4 +544,23 @@ pub fn markers_of(w: &World) -> BTreeSet<(usize, String)> {
         }
     }
     out
+}
+
+/// uids of the instantiate leaves that left anything behind: a registry entry is counted by
+/// `contracts_in`, a stored marker by its key
+pub fn instance_markers(snap: &Snap) -> BTreeSet<usize> {
+    let mut out = BTreeSet::new();
+    for (key, _) in snap {
+        let t = String::from_utf8_lossy(key).to_string();
+        if let Some(p) = t.rfind("inst_") {
+            if let Ok(u) = t[p + 5..].parse() {
+                out.insert(u);
+            }
+        }
+    }
+    out
+}
+pub fn contracts_in(snap: &Snap) -> usize {
+    // the registry map `contracts` inside the wasm namespace (length-prefixed namespaces)
+    snap.iter().filter(|(key, _)| key.windows(11).any(|w_| w_ == b"\x00\x09contracts")).count()
 }
